@@ -1051,6 +1051,45 @@ func (m *e2Machine) Close() *pt.Violation {
 		}
 	}
 	store := m.readStore()
+	// an entry (Create / Subscribe / SubscribeOrCreate) that nothing stands against must have completed by now: a datatype
+	// that stays unsubscribed for ever is as lost as an operation that is never pushed
+	collNum := map[string]int32{}
+	for _, cd := range m.sys.DB.Docs(schema.CollectionNameCollections) {
+		n, _ := getS(cd, "_id")
+		if num, ok := getV(cd, "num").(int32); ok {
+			collNum[n] = num
+		}
+	}
+	for _, c := range m.cls {
+		if m.dead[c.idx] {
+			continue
+		}
+		for k, d := range c.dts {
+			if d.rep.dt.GetState() == model.StateOfDatatype_SUBSCRIBED {
+				continue
+			}
+			var stored *storedDT
+			for _, s := range store {
+				if s.key == k && s.colNum == collNum[c.coll] {
+					stored = s
+				}
+			}
+			sameType := stored != nil && stored.typ == typeName(c.typ)
+			owed := false
+			switch d.mode {
+			case "create":
+				owed = stored == nil
+			case "subscribe":
+				owed = sameType
+			default:
+				owed = stored == nil || sameType
+			}
+			if owed {
+				_, es, _ := c.h.Events(k)
+				return viol("C05:entry-never-completed:"+d.mode, "client %d opened key %s with %s; after three fault-free sync rounds it is still %v although nothing stands against it (stored datatype for the key: %v); errors reported to it: %v", c.idx, k, d.mode, d.rep.dt.GetState(), stored != nil, clip(fmt.Sprint(es), 500))
+			}
+		}
+	}
 	for _, coll := range m.p.Colls {
 		for _, k := range m.p.Keys {
 			var first string
